@@ -39,6 +39,8 @@ pub struct CongestionController {
     // epoch packet trackers
     trackers: [Arc<dyn Feedback>; 3],
     need_send_ack_eliciting_packets: [usize; Epoch::count()],
+    // Spaces whose keys have been discarded; discarding them again must not touch the PTO back-off
+    discarded_epochs: [bool; Epoch::count()],
     path_status: PathStatus,
     tx_waker: ArcSendWaker,
 }
@@ -73,6 +75,7 @@ impl CongestionController {
             pending_burst: false,
             trackers,
             need_send_ack_eliciting_packets: [0; Epoch::count()],
+            discarded_epochs: [false; Epoch::count()],
             path_status,
             tx_waker,
         }
@@ -458,9 +461,14 @@ impl CongestionController {
     //   SetLossDetectionTimer()
     fn discard_epoch(&mut self, epoch: Epoch) {
         assert!(epoch != Epoch::Data);
+        // The client abandons the Initial space on every Handshake packet it sends (and the server on every
+        // Handshake ACK): only the first time is a reason to reset the PTO back-off.
+        let discarded_before = std::mem::replace(&mut self.discarded_epochs[epoch], true);
         self.packet_spaces[epoch].discard(&mut self.algorithm);
         self.loss_detection_timer = None;
-        self.pto_count = 0;
+        if !discarded_before {
+            self.pto_count = 0;
+        }
         self.set_loss_detection_timer();
     }
 
